@@ -227,3 +227,97 @@ End Roundtrip.
 (* non-vacuity: the first three 30-bit rows *)
 Example crt_example : poly2mpz_coef 32 [1073479681; 1072496641; 1071513601] [1073479680; 0; 5] <> None.
 Proof. vm_compute. discriminate. Qed.
+
+(* ---------- adequacy of the Euclid fuel: for pairwise coprime moduli every inverse IS found ---------- *)
+Lemma egcd_g_step f a b : b <> 0 -> fst (fst (egcd (S f) a b)) = fst (fst (egcd f b (a mod b))).
+Proof. intros Hb. cbn [egcd]. destruct (Z.eqb_spec b 0); [congruence|]. destruct (egcd f b (a mod b)) as [[g u] v]. reflexivity. Qed.
+Lemma egcd_g_zero f a : fst (fst (egcd (S f) a 0)) = a.
+Proof. reflexivity. Qed.
+
+Lemma mod_halves b r : 0 < r < b -> 2 * (b mod r) < b.
+Proof.
+  intros Hr. pose proof (Z.mod_pos_bound b r ltac:(lia)) as M. pose proof (Z.div_mod b r ltac:(lia)) as D.
+  assert (Q : 1 <= b / r) by (apply Z.div_le_lower_bound; lia). nia.
+Qed.
+
+Lemma egcd_is_gcd : forall k a b fuel, 0 <= k -> 0 <= a -> 0 <= b < 2 ^ k -> (Z.to_nat (2 * k + 1) <= fuel)%nat ->
+  fst (fst (egcd fuel a b)) = Z.gcd a b.
+Proof.
+  intros k a b fuel Hk. revert a b fuel. pattern k. apply natlike_ind; [| |exact Hk].
+  - intros a b fuel Ha Hb Hf. assert (b = 0) by (change (2 ^ 0) with 1 in Hb; lia). subst b.
+    destruct fuel as [|f]; [simpl in Hf; lia|]. rewrite egcd_g_zero, Z.gcd_0_r. symmetry. apply Z.abs_eq. lia.
+  - clear k Hk. intros k Hk IH a b fuel Ha Hb Hf.
+    rewrite Z.pow_succ_r in Hb by lia.
+    assert (F2 : (Z.to_nat (2 * k + 1) + 2 <= fuel)%nat).
+    { replace (2 * Z.succ k + 1) with ((2 * k + 1) + 2) in Hf by lia. rewrite Z2Nat.inj_add in Hf by lia.
+      change (Z.to_nat 2) with 2%nat in Hf. exact Hf. }
+    destruct fuel as [|[|f]]; try lia.
+    destruct (Z.eq_dec b 0) as [->|Nb].
+    + rewrite egcd_g_zero, Z.gcd_0_r. symmetry. apply Z.abs_eq. lia.
+    + rewrite egcd_g_step by exact Nb.
+      pose proof (Z.mod_pos_bound a b ltac:(lia)) as Mr. set (r := a mod b) in *.
+      assert (G1 : Z.gcd a b = Z.gcd b r) by (unfold r; rewrite (Z.gcd_comm b), Z.gcd_mod by exact Nb; apply Z.gcd_comm).
+      destruct (Z.eq_dec r 0) as [Er|Nr].
+      * rewrite Er. rewrite egcd_g_zero. rewrite G1, Er, Z.gcd_0_r. symmetry. apply Z.abs_eq. lia.
+      * rewrite egcd_g_step by exact Nr.
+        pose proof (mod_halves b r ltac:(lia)) as H2. pose proof (Z.mod_pos_bound b r ltac:(lia)) as Mr2.
+        rewrite (IH r (b mod r) f) by lia.
+        rewrite G1. rewrite (Z.gcd_comm r), Z.gcd_mod by exact Nr. apply Z.gcd_comm.
+Qed.
+
+Theorem modinv_complete a p : 1 < p -> rel_prime a p -> exists i, modinv a p = Some i.
+Proof.
+  intros Hp Hr. unfold modinv. pose proof (egcd_bezout (fuel_for p) p (a mod p)) as B.
+  assert (G : fst (fst (egcd (fuel_for p) p (a mod p))) = 1).
+  { pose proof (Z.mod_pos_bound a p ltac:(lia)) as M. pose proof (Z.log2_nonneg p) as L0.
+    destruct (Z.log2_spec p ltac:(lia)) as [_ L2].
+    assert (L3 : a mod p < 2 ^ (Z.log2 p + 1)) by (replace (Z.log2 p + 1) with (Z.succ (Z.log2 p)) by lia; lia).
+    rewrite (egcd_is_gcd (Z.log2 p + 1)); try lia.
+    - rewrite Z.gcd_comm, Z.gcd_mod by lia. rewrite Z.gcd_comm. apply Zgcd_1_rel_prime. exact Hr.
+    - unfold fuel_for. rewrite Z2Nat.inj_add, Z2Nat.inj_mul, Z2Nat.inj_add by lia. simpl. lia. }
+  clear B. destruct (egcd (fuel_for p) p (a mod p)) as [[g u] v]. simpl in G. subst g. change (1 =? 1) with true. cbv iota. eexists. reflexivity.
+Qed.
+
+Lemma rel_prime_others ps i : (i < length ps)%nat ->
+  (forall a b, (a < length ps)%nat -> (b < length ps)%nat -> a <> b -> rel_prime (nth a ps 1) (nth b ps 1)) ->
+  rel_prime (others i ps) (nth i ps 1).
+Proof.
+  revert i. induction ps as [|p t IH]; intros i Hi Hc; [simpl in Hi; lia|].
+  assert (P : forall l q, (forall j, (j < length l)%nat -> rel_prime (nth j l 1) q) -> rel_prime (prod l) q).
+  { induction l as [|x l IHl]; intros q H; simpl; [apply rel_prime_1|].
+    apply rel_prime_sym, rel_prime_mult; apply rel_prime_sym; [apply (H 0%nat); simpl; lia | apply IHl; intros j Hj; apply (H (S j)); simpl; lia]. }
+  destruct i as [|i]; cbn [others nth].
+  - apply P. intros j Hj. apply (Hc (S j) 0%nat); simpl; lia.
+  - apply rel_prime_sym, rel_prime_mult; apply rel_prime_sym.
+    + apply (Hc 0%nat (S i)); simpl in *; lia.
+    + apply IH; [simpl in Hi; lia|]. intros a b Ha Hb Hab. apply (Hc (S a) (S b)); simpl; lia.
+Qed.
+
+Lemma all_some_complete l : (forall i, (i < length l)%nat -> nth i l None <> None) -> exists xs, all_some l = Some xs.
+Proof.
+  induction l as [|o t IH]; intros H; [exists []; reflexivity|].
+  destruct o as [x|]; [|exfalso; apply (H 0%nat); simpl; [lia | reflexivity]].
+  destruct IH as [xs E]; [intros i Hi; apply (H (S i)); simpl; lia|]. exists (x :: xs). cbn [all_some]. rewrite E. reflexivity.
+Qed.
+
+Theorem modinvs_complete ps : (forall i, (i < length ps)%nat -> 1 < nth i ps 1) ->
+  (forall a b, (a < length ps)%nat -> (b < length ps)%nat -> a <> b -> rel_prime (nth a ps 1) (nth b ps 1)) ->
+  exists invs, all_some (modinvs ps) = Some invs.
+Proof.
+  intros Hp Hc. apply all_some_complete. intros i Hi. unfold modinvs in *. rewrite map_length, seq_length in Hi.
+  rewrite (nth_indep _ None (modinv (others 0 ps) (nth 0 ps 1))) by (rewrite map_length, seq_length; exact Hi).
+  rewrite (map_nth (fun i => modinv (others i ps) (nth i ps 1))), seq_nth by exact Hi. simpl.
+  destruct (modinv_complete (others i ps) (nth i ps 1) (Hp i Hi) (rel_prime_others ps i Hi Hc)) as [x ->]. discriminate.
+Qed.
+
+(* C04 without the side condition: for pairwise coprime moduli below 2^w the lift exists, is in [0,Q) and congruent to every residue *)
+Theorem poly2mpz_total w ps : 0 <= w -> ps <> [] -> (forall i, (i < length ps)%nat -> 1 < nth i ps 1 < 2 ^ w) ->
+  (forall a b, (a < length ps)%nat -> (b < length ps)%nat -> a <> b -> rel_prime (nth a ps 1) (nth b ps 1)) ->
+  forall rs, length rs = length ps -> (forall i, (i < length ps)%nat -> 0 <= nth i rs 0 < nth i ps 1) ->
+  exists x, poly2mpz_coef w ps rs = Some x /\ 0 <= x < prod ps /\ forall j, (j < length ps)%nat -> x mod nth j ps 1 = nth j rs 0.
+Proof.
+  intros Hw Hne Hr Hc rs Hl Hrs.
+  destruct (modinvs_complete ps (fun i Hi => proj1 (Hr i Hi)) Hc) as [invs E].
+  exact (poly2mpz_correct w ps Hw Hne Hr invs E rs Hl Hrs).
+Qed.
+Print Assumptions poly2mpz_total.
